@@ -74,11 +74,23 @@ func (p *Path) f2iCut(x *Term, bits uint8, signed bool) *Term {
 	if p.enc != EncInt {
 		return nil
 	}
+	if r := p.f2iQuot(x, bits, signed); r != nil {
+		return r
+	}
 	e, ok := encloseFloat(x)
 	if !ok || e.x == nil {
 		return nil
 	}
 	st := p.store
+	// float64(x) * 1.0 (or float64(x) alone) is fl(x): exactly x below 2^53
+	if one := isTimesOne(x); one != nil && !signed {
+		p.nondetSeq["fpcut"]++
+		r := st.Var(fmt.Sprintf("fpcut_%d", p.nondetSeq["fpcut"]), KInt, bits, signed)
+		rw := st.Conv(r, 0, false)
+		p.assertPC(st.Eq(rw, p.exactFl(one)))
+		p.fpCuts++
+		return r
+	}
 	p.nondetSeq["fpcut"]++
 	r := st.Var(fmt.Sprintf("fpcut_%d", p.nondetSeq["fpcut"]), KInt, bits, signed)
 	// wide arithmetic: r*D <= x*N  and  r*D' > x*N' - D'
@@ -107,4 +119,154 @@ func (p *Path) f2iCut(x *Term, bits uint8, signed bool) *Term {
 func floatNonNeg(t *Term) bool {
 	_, ok := encloseFloat(t)
 	return ok
+}
+
+// fdivCut abstracts q = fl(float64(x) / float64(y)) for integer terms x, y by a fresh binary64
+// variable that never reaches the solver: its uses are intercepted and replaced by INTEGER
+// facts that hold for every IEEE-754 correctly rounded division / multiplication and monotone
+// integer->float conversion (the range lemma 0<=x<=y, y>0 => 0<=q<=1 was discharged at full
+// width by z3 and cvc5, DESIGN 1.3):
+//   q < 0                      <=>  x < 0 <= y (y == 0 gives -Inf) or y < 0 < x
+//   r = uint64(float64(L) * q)  with L unsigned:
+//        0 <= x <= y, y > 0  =>  0 <= r <= L            (L < 2^53; else r <= L(1+2^-52))
+//        x == y > 0          =>  r == L                 (L < 2^53; else r within 2^-53 of L)
+//        x == 0, y > 0       =>  r == 0
+//        x > y > 0           =>  r >= L                 (L < 2^53)
+// Nothing else is assumed, so every obligation proved this way holds for the real floats; a
+// model that depends on the freedom left is replayed natively before it is reported.
+func (p *Path) fdivCut(a, b *Term) *Term {
+	if p == nil || p.concrete != nil || a.op != OI2F || b.op != OI2F {
+		return nil
+	}
+	x, y := a.a[0], b.a[0]
+	if x.kind != KInt || y.kind != KInt {
+		return nil
+	}
+	st := p.store
+	p.nondetSeq["fdivcut"]++
+	q := st.Var(fmt.Sprintf("fdivcut_%d", p.nondetSeq["fdivcut"]), KF64, 0, false)
+	if p.fdivInfo == nil {
+		p.fdivInfo = map[*Term][2]*Term{}
+	}
+	p.fdivInfo[q] = [2]*Term{st.Conv(x, 0, false), st.Conv(y, 0, false)}
+	p.fpCuts++
+	p.notes = append(p.notes, "float quotient of two integers abstracted by IEEE range facts (fdivCut)")
+	return q
+}
+
+// quotNegative: the integer condition under which the abstract quotient q is negative.
+func (p *Path) quotNegative(q *Term) *Term {
+	st := p.store
+	xy := p.fdivInfo[q]
+	zero := st.Wide(big.NewInt(0))
+	// x<0, y>=0 (y == 0: -Inf)  or  x>0, y<0
+	return st.Or(st.And(st.Lt(xy[0], zero), st.Le(zero, xy[1])), st.And(st.Lt(zero, xy[0]), st.Lt(xy[1], zero)))
+}
+
+// quotProduct matches float64(L) * q (either order) with L unsigned and q an abstract quotient.
+func (p *Path) quotProduct(t *Term) (L, q *Term, ok bool) {
+	if p == nil || p.fdivInfo == nil || t.op != OFMul {
+		return nil, nil, false
+	}
+	for k := 0; k < 2; k++ {
+		l, r := t.a[k], t.a[1-k]
+		if _, isQ := p.fdivInfo[r]; isQ && l.op == OI2F && l.a[0].kind == KInt && !l.a[0].signed {
+			return l.a[0], r, true
+		}
+	}
+	return nil, nil, false
+}
+
+// floatLtZero decides t < 0.0 for the intercepted shapes; nil when t is not one of them.
+func (p *Path) floatLtZero(t *Term) *Term {
+	if p == nil || p.fdivInfo == nil {
+		return nil
+	}
+	st := p.store
+	if _, isQ := p.fdivInfo[t]; isQ {
+		return p.quotNegative(t)
+	}
+	if L, q, ok := p.quotProduct(t); ok {
+		return st.And(st.Lt(st.Wide(big.NewInt(0)), st.Conv(L, 0, false)), p.quotNegative(q))
+	}
+	return nil
+}
+
+// f2iQuot: uint conversion of float64(L) * q.
+func (p *Path) f2iQuot(t *Term, bits uint8, signed bool) *Term {
+	L, q, ok := p.quotProduct(t)
+	if !ok || signed {
+		return nil
+	}
+	st := p.store
+	xy := p.fdivInfo[q]
+	x, y := xy[0], xy[1]
+	p.nondetSeq["fpcut"]++
+	r := st.Var(fmt.Sprintf("fpcut_%d", p.nondetSeq["fpcut"]), KInt, bits, signed)
+	rw, lw := st.Conv(r, 0, false), st.Conv(L, 0, false)
+	zero := st.Wide(big.NewInt(0))
+	two53 := st.Wide(new(big.Int).Lsh(big.NewInt(1), 53))
+	small := st.Lt(lw, two53)
+	mulc := func(t *Term, c *big.Int) *Term { return st.mk(&Term{op: OMul, kind: KWide, a: []*Term{t, st.Wide(c)}}) }
+	imp := func(h, c *Term) *Term { return st.Or(st.Not(h), c) }
+	ypos := st.Lt(zero, y)
+	unit := st.And(ypos, st.And(st.Le(zero, x), st.Le(x, y)))
+	fl := p.exactFl(L) // fl(L) as an exact integer
+	_ = small
+	_ = mulc
+	p.assertPC(imp(unit, st.Le(rw, fl)))
+	p.assertPC(imp(st.And(ypos, st.Eq(x, y)), st.Eq(rw, fl)))
+	p.assertPC(imp(st.And(ypos, st.Eq(x, zero)), st.Eq(rw, zero)))
+	p.assertPC(imp(st.And(ypos, st.Lt(y, x)), st.Le(fl, rw)))
+	p.fpCuts++
+	return r
+}
+
+// isTimesOne matches float64(x) and float64(x) * 1.0 for an unsigned integer term x.
+func isTimesOne(t *Term) *Term {
+	if t.op == OI2F && t.a[0].kind == KInt && !t.a[0].signed {
+		return t.a[0]
+	}
+	if t.op == OFMul {
+		for k := 0; k < 2; k++ {
+			if c := t.a[1-k]; c.isConst() && c.f64Val() == 1.0 {
+				if x := isTimesOne(t.a[k]); x != nil {
+					return x
+				}
+			}
+		}
+	}
+	return nil
+}
+
+// exactFl returns the mathematical integer fl(L): the binary64 nearest to the unsigned integer
+// term L (round half to even), exact for every L < 2^64, as a piecewise-linear wide term.
+func (p *Path) exactFl(L *Term) *Term {
+	st := p.store
+	lw := st.Conv(L, 0, false)
+	if p.flMemo == nil {
+		p.flMemo = map[*Term]*Term{}
+	}
+	if r, ok := p.flMemo[lw]; ok {
+		return r
+	}
+	wide := func(op Op, a, b *Term) *Term { return st.mk(&Term{op: op, kind: KWide, a: []*Term{a, b}}) }
+	ite := func(c, a, b *Term) *Term { return st.mk(&Term{op: OIte, kind: KWide, a: []*Term{c, a, b}}) }
+	one, zero := st.Wide(big.NewInt(1)), st.Wide(big.NewInt(0))
+	res := lw // for L >= 2^64 never used
+	for j := 10; j >= 0; j-- {
+		sBig := new(big.Int).Lsh(big.NewInt(1), uint(j+1))
+		sT := st.Wide(sBig)
+		half := st.Wide(new(big.Int).Lsh(big.NewInt(1), uint(j)))
+		m := wide(ODiv, lw, sT)
+		rem := wide(ORem, lw, sT)
+		odd := st.Eq(wide(ORem, m, st.Wide(big.NewInt(2))), one)
+		up := st.Or(st.Lt(half, rem), st.And(st.Eq(rem, half), odd))
+		fl := wide(OMul, wide(OAdd, m, ite(up, one, zero)), sT)
+		bound := st.Wide(new(big.Int).Lsh(big.NewInt(1), uint(54+j)))
+		res = ite(st.Lt(lw, bound), fl, res)
+	}
+	res = ite(st.Lt(lw, st.Wide(new(big.Int).Lsh(big.NewInt(1), 53))), lw, res)
+	p.flMemo[lw] = res
+	return res
 }
